@@ -16,7 +16,8 @@ EXPLANATION = (
     "(f) automatic addressing: insert_ipaddr / remove_ipaddr only under is_addr_auto().  Decides these mechanisms, not "
     "behaviour over topologies and event sequences."
     " (g) Inside the arm taken for one IP family no accessor of the other family is consulted. (h) remove_records_on_intf reports an instance removed iff no remaining PTR names it (polarity of the search)."
-    " (i) In add_interface every addr_auto service gets the new address: only is_addr_auto() == false skips insert_ipaddr.")
+    " (i) In add_interface every addr_auto service gets the new address: only is_addr_auto() == false skips insert_ipaddr."
+    " (j) check_ip_changes removes what vanished before it adds what appeared.")
 UNDECIDED = ["behaviour over topologies and event sequences (moving addresses, flapping interfaces)"]
 
 
@@ -280,6 +281,7 @@ def run(ctx, P):
     r2.removed_iff_no_ptr_left(ctx, P, "C18h")
     from . import r4
     r4.auto_addr_follows_every_new_address(ctx, P, "C18i")
+    r4.removals_before_additions_on_ip_change(ctx, P, "C18j")
     clause_a(ctx, P)
     clause_b(ctx, P)
     clause_c(ctx, P)
